@@ -16,12 +16,24 @@ GenNext ==
           Reply(a, t, out, new, old) /\ h' = Append(h, [ev |-> "Reply", alg |-> a, t |-> t, out |-> out, new |-> new, old |-> old])
     \/ \E S \in SUBSET Alg : Reload(S) /\ h' = Append(h, [ev |-> "Reload", S |-> S])
 GenSpec == GenInit /\ [][GenNext]_gvars
+(* focus variant: single-algorithm requests for {T1} or {T1, T2} only -- keeps 3-request histories tractable *)
+GenNextFocus ==
+    \/ \E a \in Alg, T \in {{"T1"}, {"T1", "T2"}} :
+          Run({a}, T) /\ h' = Append(h, [ev |-> "Run", S |-> {a}, T |-> T])
+    \/ Tick /\ h' = Append(h, [ev |-> "Tick"])
+    \/ \E a \in Alg, t \in Tg, out \in Outcomes : \E new \in SUBSET prog.vals[a], old \in BOOLEAN :
+          Reply(a, t, out, new, old) /\ h' = Append(h, [ev |-> "Reply", alg |-> a, t |-> t, out |-> out, new |-> new, old |-> old])
+    \/ \E S \in {{}, {A1}} : Reload(S) /\ h' = Append(h, [ev |-> "Reload", S |-> S])
+GenSpecFocus == GenInit /\ [][GenNextFocus]_gvars
 View == vars
 ProgJson == [kind |-> prog.kind, ins |-> prog.ins, vals |-> prog.vals]
 Emit == PrintT(<<"SCHED", ToJson([prog |-> ProgJson, h |-> h'])>>)
 (* simulation: print every prefix; the driver keeps the maximal ones *)
 (* sampled export of a large instance: every transition is printed with probability 1/SampleRate *)
-SampleRate == 250
-EmitSample == (RandomElement(1..SampleRate) = 1) => PrintT(<<"SCHED", ToJson([prog |-> ProgJson, h |-> h'])>>)
+EmitAt(k) == (RandomElement(1..k) = 1) => PrintT(<<"SCHED", ToJson([prog |-> ProgJson, h |-> h'])>>)
+EmitS100 == EmitAt(100)
+EmitS250 == EmitAt(250)
+EmitS500 == EmitAt(500)
+EmitSample == EmitS250
 SimInv == PrintT(<<"SCHED", ToJson([prog |-> ProgJson, h |-> h])>>)
 =============================================================================
